@@ -8,6 +8,9 @@ Models produced or touched on the way (copies, the original after a copy, the ri
 """
 from bcc import histories_c01c02 as H
 
+# failures: {"key": class, "witness": "<base>|<solver>|<canonical JSON of the minimal history>" (or "random:<class>"),
+#            "source": "deterministic" | "random", "failure": text, "replay": {...}} - see NOTES_C01.md / KNOWN_C01.json
+
 KNOWN_KEYS = set()
 
 
